@@ -28,7 +28,7 @@
 (* attributed to a set of deviations only if the values amoco produced are  *)
 (* exactly the ones this module computes with that set enabled.             *)
 (***************************************************************************)
-EXTENDS Integers, Sequences, FiniteSets, TLC, Json
+EXTENDS Integers, Sequences, FiniteSets, TLC, Json, IOUtils
 
 CONSTANTS RawT,      \* raw type letters used for scalar / array fields
           ArrN,      \* array counts of raw members
@@ -44,6 +44,9 @@ CONSTANTS RawT,      \* raw type letters used for scalar / array fields
           BitSplits, \* set of width sequences for bitfields
           PS,        \* pointer sizes (bits)
           VCs,       \* value classes: "zero","pat","neg","min","max"
+          Stride,    \* 1: every finished case is checked and emitted; k > 1: the cases whose hash is
+                     \* C16_PHASE (environment, default 0) modulo k - the quick tier samples, a different
+                     \* residue class for every seed; the thorough tier uses 1
           Dev,       \* deviation set of the model itself ({} = the property; MC self-test uses a fault)
           Mode       \* "mc" (no output) | "gen" (print one case per terminal state)
 
@@ -571,7 +574,23 @@ Fixed  == ~HasVar(TheDef)
 RECURSIVE HasUnion(_)
 HasUnion(d) == d.kind = "union" \/ \E i \in 1..Len(d.fs) : d.fs[i].k = "nest" /\ HasUnion(d.fs[i].d)
 
-(* M: internal invariants of the reference model (checked on every case)    *)
+(* sampling of the finished cases (Stride > 1): a cheap hash of the definition, pointer size, value class *)
+LCode == ("x" :> 1) @@ ("c" :> 2) @@ ("b" :> 3) @@ ("B" :> 4) @@ ("s" :> 5) @@ ("h" :> 6) @@ ("H" :> 7) @@ ("i" :> 8) @@
+         ("I" :> 9) @@ ("f" :> 10) @@ ("l" :> 11) @@ ("L" :> 12) @@ ("P" :> 13) @@ ("q" :> 14) @@ ("Q" :> 15) @@ ("d" :> 16) @@ ("" :> 17)
+KCode == ("raw" :> 1) @@ ("nest" :> 2) @@ ("bits" :> 3) @@ ("var" :> 4) @@ ("cnt" :> 5) @@ ("bound" :> 6) @@ ("leb" :> 7)
+VCode == ("zero" :> 1) @@ ("pat" :> 2) @@ ("neg" :> 3) @@ ("min" :> 4) @@ ("max" :> 5) @@ ("none" :> 0)
+RECURSIVE DefHash(_), FieldsHash(_, _, _)
+FieldsHash(d, i, h) ==
+  IF i > Len(d.fs) THEN h
+  ELSE LET f == d.fs[i]
+           c == LCode[f.t] + 19 * KCode[f.k] + 7 * f.n + 3 * Len(f.bits) + (IF f.td THEN 5 ELSE 0) + (IF f.o = ">" THEN 11 ELSE 0)
+                + (IF f.k = "nest" THEN DefHash(f.d) ELSE 0)
+       IN FieldsHash(d, i + 1, (h * 31 + c) % 99991)
+DefHash(d) == FieldsHash(d, 1, (IF d.kind = "union" THEN 2 ELSE IF d.packed THEN 3 ELSE 5) + (IF d.ord = ">" THEN 7 ELSE 0))
+Phase == IF "C16_PHASE" \in DOMAIN IOEnv THEN atoi(IOEnv.C16_PHASE) ELSE 0
+Sampled == Stride = 1 \/ (DefHash(TheDef) + (psz \div 32) + 3 * VCode[vcl]) % Stride = Phase % Stride
+
+(* M: internal invariants of the reference model (checked on every sampled case) *)
 RECURSIVE WellLaid(_, _)
 WellLaid(d, ps) ==
   LET offs == Offsets(d, ps, Dev) IN
@@ -584,15 +603,15 @@ WellLaid(d, ps) ==
        /\ (d.fs[i].k = "nest" => WellLaid(d.fs[i].d, ps))
   /\ SizeOf(d, ps, Dev) % AlignOf(d, ps, Dev) = 0
   /\ SizeOf(d, ps, Dev) - Max({offs[i] + FSize(d.fs[i], ps, Dev) : i \in 1..Len(d.fs)}) < AlignOf(d, ps, Dev)
-LayoutOK  == phase = "done" /\ Fixed => WellLaid(TheDef, psz)
-SizeOK    == phase = "done" /\ Fixed => Len(Image) = SizeOf(TheDef, psz, Dev)
-RoundTrip == phase = "done" =>
+LayoutOK  == phase = "done" /\ Sampled /\ Fixed => WellLaid(TheDef, psz)
+SizeOK    == phase = "done" /\ Sampled /\ Fixed => Len(Image) = SizeOf(TheDef, psz, Dev)
+RoundTrip == phase = "done" /\ Sampled =>
                LET r == Unpack(TheDef, Image \o Filler, 0, psz, Dev) IN
                /\ r.n = Len(Image) /\ r.x <= Len(Image)
                /\ (~HasUnion(TheDef) => r.v = Vals)
                /\ Pack(TheDef, r.v, psz, Dev) = Image
 (* 32-bit layout never exceeds the 64-bit one *)
-Monotone  == phase = "done" /\ Fixed => SizeOf(TheDef, 32, Dev) <= SizeOf(TheDef, 64, Dev)
+Monotone  == phase = "done" /\ Sampled /\ Fixed => SizeOf(TheDef, 32, Dev) <= SizeOf(TheDef, 64, Dev)
 
 -----------------------------------------------------------------------------
 (* G: the case as the replayer gets it. Everything the replayer compares    *)
@@ -675,5 +694,5 @@ Case ==
                        minimal == {D \in cands : ~\E E \in cands : E # D /\ E \subseteq D /\ P[E] = P[D]}
                    IN SetToSeq({[devs |-> SetToSeq(D), bytes |-> P[D]] : D \in minimal}),
       packTrig |-> PackTrig(TheDef, exp)]
-Emit == (phase = "done" /\ Mode = "gen") => PrintT(ToJson(Case))
+Emit == (phase = "done" /\ Mode = "gen" /\ Sampled) => PrintT(ToJson(Case))
 =============================================================================
